@@ -2,6 +2,7 @@ package main
 
 import (
 	"encoding/json"
+	"math/big"
 	"flag"
 	"fmt"
 	"go/types"
@@ -304,13 +305,11 @@ func solveAll(e *Engine, obs []*Obligation, tier int, timeout time.Duration) {
 	var mu sync.Mutex
 	// queries must be rendered sequentially (the store is not thread-safe)
 	type job struct {
-		ob    *Obligation
-		query string
-		th    string
+		ob *Obligation
+		as []attempt
 	}
 	var jobs []job
 	for _, ob := range obs {
-		// trivial cases
 		hyp := e.st.And(ob.Hyps...)
 		if ob.Kind == ObReach {
 			if hyp.IsFalse() {
@@ -325,7 +324,20 @@ func solveAll(e *Engine, obs []*Obligation, tier int, timeout time.Duration) {
 			}
 			roots := append([]*Term{}, ob.Hyps...)
 			ob.Size = Size(roots...)
-			jobs = append(jobs, job{ob, e.st.buildQuery(ob.Hyps, nil, false, nil), theoryOf(roots)})
+			var as []attempt
+			th := theoryOf(roots)
+			q := e.st.buildQuery(ob.Hyps, nil, false, nil)
+			for _, c := range solversFor(th, tier) {
+				as = append(as, attempt{cfg: c, query: q, label: th, satExact: true})
+			}
+			if th == "lia" || th == "nia" {
+				if nh, _, w, ok, _ := e.st.lowerIntToBV(ob.Hyps, nil); ok {
+					q2 := e.st.buildQuery(nh, nil, false, nil)
+					lab := fmt.Sprintf("bv%d lowered from int", w)
+					as = append(as, attempt{cfg: z3new, query: q2, label: lab, satExact: true}, attempt{cfg: cvc5c, query: q2, label: lab, satExact: true})
+				}
+			}
+			jobs = append(jobs, job{ob, as})
 			continue
 		}
 		if hyp.IsFalse() || ob.Goal.IsTrue() {
@@ -334,15 +346,6 @@ func solveAll(e *Engine, obs []*Obligation, tier int, timeout time.Duration) {
 			continue
 		}
 		roots := append(append([]*Term{}, ob.Hyps...), ob.Goal)
-		hyps, goal := ob.Hyps, ob.Goal
-		lowered := ""
-		if th := theoryOf(roots); th == "lia" || th == "nia" {
-			if nh, ng, w, ok, _ := e.st.lowerIntToBV(ob.Hyps, ob.Goal); ok {
-				hyps, goal = nh, ng
-				roots = append(append([]*Term{}, hyps...), goal)
-				lowered = fmt.Sprintf("bv (integer specification lowered exactly to %d-bit two's complement)", w)
-			}
-		}
 		ob.Size = Size(roots...)
 		var msyms []*Term
 		for _, s := range Syms(roots...) {
@@ -350,10 +353,35 @@ func solveAll(e *Engine, obs []*Obligation, tier int, timeout time.Duration) {
 				msyms = append(msyms, s)
 			}
 		}
-		jobs = append(jobs, job{ob, e.st.buildQuery(hyps, goal, true, msyms), theoryOf(roots)})
-		if lowered != "" {
-			ob.Lowered = lowered
+		th := theoryOf(roots)
+		ob.Theory = th
+		var as []attempt
+		direct := e.st.buildQuery(ob.Hyps, ob.Goal, true, msyms)
+		hasBV := hasBVTerms(roots)
+		switch th {
+		case "seq":
+			as = append(as, attempt{cfg: z3new, query: direct, label: "seq+uf", satExact: true})
+		case "bv":
+			as = append(as, attempt{cfg: z3new, query: direct, label: "bv", satExact: true}, attempt{cfg: cvc5c, query: direct, label: "bv", satExact: true})
+			if ob.TryInt {
+				e.addLifted(&as, ob, msyms, tier)
+			}
+		default: // lia / nia, possibly mixed with bit-vectors
+			if nh, ng, w, ok, _ := e.st.lowerIntToBV(ob.Hyps, ob.Goal); ok && !ob.NoLower {
+				q2 := e.st.buildQuery(nh, ng, true, msyms)
+				lab := fmt.Sprintf("bv%d lowered from int", w)
+				as = append(as, attempt{cfg: z3new, query: q2, label: lab, satExact: true}, attempt{cfg: cvc5c, query: q2, label: lab, satExact: true})
+			}
+			if hasBV {
+				e.addLifted(&as, ob, msyms, tier)
+			}
+			if !hasBV || len(as) == 0 {
+				for _, c := range solversFor(th, tier) {
+					as = append(as, attempt{cfg: c, query: direct, label: th, satExact: true})
+				}
+			}
 		}
+		jobs = append(jobs, job{ob, as})
 	}
 	for _, j := range jobs {
 		wg.Add(1)
@@ -361,15 +389,21 @@ func solveAll(e *Engine, obs []*Obligation, tier int, timeout time.Duration) {
 		go func(j job) {
 			defer wg.Done()
 			defer func() { <-sem }()
-			r := portfolio(solversFor(j.th, tier), j.query, timeout)
+			r := portfolioAttempts(j.as, timeout)
 			mu.Lock()
 			j.ob.Verdict = r.Verdict
 			j.ob.Solver = r.Solver
 			j.ob.Time = r.Time
 			j.ob.Model = r.Model
-			j.ob.Theory = j.th
-			if j.ob.Lowered != "" {
-				j.ob.Theory = j.ob.Lowered
+			if r.Model != nil {
+				// integer-lifted models: map i!name back to bit-vector symbols
+				for k, v := range r.Model {
+					if strings.HasPrefix(k, "i!") {
+						if n, ok := new(big.Int).SetString(v, 10); ok {
+							j.ob.Model[strings.TrimPrefix(k, "i!")] = "#x" + n.Text(16)
+						}
+					}
+				}
 			}
 			if r.Verdict == "error" || r.Verdict == "unknown" {
 				j.ob.Msg += " [solver: " + firstLines(r.Raw, 2) + "]"
@@ -378,6 +412,61 @@ func solveAll(e *Engine, obs []*Obligation, tier int, timeout time.Duration) {
 		}(j)
 	}
 	wg.Wait()
+}
+
+func hasBVTerms(ts []*Term) bool {
+	seen := map[int]bool{}
+	var stack []*Term
+	stack = append(stack, ts...)
+	for len(stack) > 0 {
+		t := stack[len(stack)-1]
+		stack = stack[:len(stack)-1]
+		if seen[t.ID] {
+			continue
+		}
+		seen[t.ID] = true
+		if t.S.K == SBV && t.Op != OConst {
+			return true
+		}
+		stack = append(stack, t.Args...)
+	}
+	return false
+}
+
+// addLifted adds the integer-lifted encoding of an obligation (exact; side conditions as a second query).
+func (e *Engine) addLifted(as *[]attempt, ob *Obligation, msyms []*Term, tier int) {
+	nh, ng, side, ok, why := e.st.liftToInt(ob.Hyps, ob.Goal)
+	if !ok {
+		ob.LiftNote = why
+		return
+	}
+	roots := append(append([]*Term{}, nh...), ng)
+	var ms []*Term
+	for _, s := range Syms(roots...) {
+		if s.S.K == SBool || s.S.K == SInt {
+			ms = append(ms, s)
+		}
+	}
+	q := e.st.buildQuery(nh, ng, true, ms)
+	sideQ := ""
+	nside := 0
+	if !side.IsTrue() {
+		sideQ = e.st.buildQuery(nh, side, true, nil)
+		if side.Op == OAnd {
+			nside = len(side.Args)
+		} else {
+			nside = 1
+		}
+	}
+	th := theoryOf(roots)
+	lab := fmt.Sprintf("int lifted from bv (%s, %d no-wrap side conditions)", th, nside)
+	cfgs := []SolverCfg{z3new, cvc5c, z3seed(7)}
+	if th == "nia" {
+		cfgs = []SolverCfg{z3new, z3som, z3seed(7), z3seed(42), cvc5c}
+	}
+	for _, c := range cfgs {
+		*as = append(*as, attempt{cfg: c, query: q, label: lab, satExact: true, side: sideQ})
+	}
 }
 
 // ---------------------------------------------------------------------------
